@@ -65,7 +65,8 @@ def avp_order_check(chk, fx, a, config):
             return
         for b in res["back"]:
             evs = b.events()[H.ntrace:]
-            rn = [e for e in evs if e[0] == "range_next"]
+            # (the loop's own counter: iterations of loops inside the AVP encoders do not count)
+            rn = [e for e in evs if e[0] == "range_next" and not any("AVP::write" in p_ for p_ in str(e[3].get("ctx", "")).split(" > ")[1:])]
             calls = [r for r in seen["recv"] if r[0] >= H.ntrace]
             if not rn and calls and isinstance(calls[-1][2], tuple) and calls[-1][2][0] == "ei":
                 # no iterator: the element index is a running position of the loop's own (a slice peeled from the front, a
@@ -136,6 +137,9 @@ def run_config(chk, config):
     bad = []
     for s, _ in rets:
         c = layout.canon_writer(eng, s, layout.wtokens(eng, s))
+        if c and c[0] == ("zero", 4) and hs["avp_header"]["vendor_id"] == 0:
+            # placeholder and the all-zero vendor id emitted as one run of four zero octets
+            c = [("zero", 2), ("const", 2, 0)] + list(c[1:])
         ok = len(c) >= 4 and c[0] == ("zero", 2) and c[1] == ("const", 2, hs["avp_header"]["vendor_id"]) and c[-1] == ("patch",) \
             and (c[2][0] in ("const", "int")) and c[2][1] == 2 and sum(1 for x in c if x == ("patch",)) == 1
         # ("zero",2),("const",2,0) may merge when the placeholder and a zero vendor id are adjacent zeros
